@@ -164,3 +164,29 @@ Proof.
   - cbv zeta. split; [exists n_sched2; reflexivity|]. vm_compute. repeat (split; [reflexivity|]). reflexivity.
 Qed.
 Print Assumptions c13_nonvacuous.
+
+(* ---- forced removal of a role that is NOT attached ---- *)
+(* domain: b in 0..255, both roles (evaluated table absent_table, lifted): remove_state for a role
+   whose bit is clear writes the byte back unchanged -- it never marks a connection under the
+   attached opposite role *)
+Theorem c13_forced_absent_noop : forall b r, b < 256 -> N.land b (rbit r) = 0 -> remove_new b r = b.
+Proof. exact remove_absent_noop. Qed.
+Print Assumptions c13_forced_absent_noop.
+
+(* in every reachable state such a CAS changes neither the byte nor the holders, the name still
+   refers to the same incarnation, nothing is unlinked, and the handle proceeds to Storage::drop
+   without having acquired the ownership *)
+Theorem c13_forced_absent_step : forall progs g ls t h w c,
+  reachable step (init progs) (g, ls) -> at_pc (ls t) = RsCas h w c ->
+  i_st (get_inc g (h_inc h)) = c -> N.land c (rbit (h_role h)) = 0 -> c <> MARKED ->
+  exists g' e, step t g (ls t) = Some (g', goto (ls t) (DrOwn h w), [e]) /\
+    get_inc g' (h_inc h) = get_inc g (h_inc h) /\ cur g' = cur g /\ unl g' = unl g /\ saw_marked g' = saw_marked g.
+Proof. exact forced_absent_step. Qed.
+Print Assumptions c13_forced_absent_step.
+
+(* the rule "mark unless both roles are attached" is NOT this function: receiver attached (2),
+   remove_sender: the code leaves 2, the variant marks *)
+Example c13_seeded_rule_refuted :
+  N.land 2 (rbit RSend) = 0 /\ remove_new 2 RSend = 2 /\ remove_new_seeded 2 RSend = MARKED.
+Proof. exact seeded_rule_marks_under_attached_peer. Qed.
+Print Assumptions c13_seeded_rule_refuted.
